@@ -34,6 +34,14 @@ CHECKS = {
          "exploration over fault classes x enclosing statement kinds x placements, full and incremental installs", "this is the only check that reads error texts (the property is about them); the citation pattern is a regexp", "4 C20"),
  "C10": ("exploration", "compile fuzzer", "runtime monitoring: differential fuzzing of the five compile entry points (token-level mutants, valid texts, raw bytes) with before/after observation of the installed rule set through executions and queries",
          "exploration; crash and hang of a compile entry point are violations (child processes with journals)", "accept/reject is compared across entry points, error texts are not inspected", "4 C10"),
+ "C06": ("exploration", "E3 pool storms", "runtime monitoring: request-unique ids echoed by rules into results, the request's own objects and observers during storms through all 24 pool methods; stale-key probes on every instance; result maps re-compared after the storm",
+         "exploration over schedules (client goroutines, holds inside rules, hook jitter, GOMAXPROCS) and pool sizes", "identity checks on values only", "4 C06"),
+ "C07": ("exploration", "E4 version histories", "runtime monitoring: version-tagged rules, client-boundary call/return history of updates and executions, offline checker for one-version-per-execution and the two real-time clauses; deterministic torn-read probes for every pool method",
+         "probes enumerate 24 methods x 3 update kinds completely; histories explore interleavings with hook-point delays", "regular-register clauses of the property, deliberately not linearizability (DESIGN section 6)", "4 C07"),
+ "C16": ("exploration", "E3/E4 management histories", "runtime monitoring: sequential model-based management histories; queries compared with a map model; max simultaneous gated requests force an execution onto every instance, each validated by the E2 oracle",
+         "exploration over operation sequences and pool sizes", "pigeonhole argument needs all max requests inside rule bodies at once (checked, else inconclusive)", "4 C16"),
+ "C17": ("exploration", "E3 pool storms", "runtime monitoring: injected gate counts rule bodies in flight; hook-fed shadow of the free / in-flight sets under the pool's own locks; conservation at quiescence; bounded-progress checks for waiters and re-saturation",
+         "exploration over arrival orders, faults (rule errors, panicking functions) and pool sizes", "the only wall-clock verdicts are 20 s progress bounds (normal latency < 1 ms)", "4 C17"),
  "C15": ("exploration", "E2 trace monitor", "runtime monitoring: rules sharing local names, readers-before-write must fault and writers must get their own value back, in every model, repeated calls and concurrent duplicates",
          "exploration", "a leak must change a returned value or let a reader succeed to be seen", "4 C15"),
 }
@@ -73,6 +81,8 @@ def main():
             {"name": "E1 generator + reference interpreter", "path": "harness/gen + harness/e1", "serves_properties": ["C01","C02","C03","C18"], "kind_free_text": "typed AST generator, printer and independent reference interpreter; differential monitor over real executions"},
             {"name": "line-citation monitor", "path": "harness/linecite", "serves_properties": ["C20"], "kind_free_text": "single-fault text generator + citation oracle"},
             {"name": "compile fuzzer", "path": "harness/cfuzz", "serves_properties": ["C10"], "kind_free_text": "token-level mutation fuzzer, five-entry-point differential driver"},
+            {"name": "E3 pool storms", "path": "harness/poolmon", "serves_properties": ["C06","C17","C19"], "kind_free_text": "pool scenarios, injected gate, hook-fed shadow monitor"},
+            {"name": "E4 version histories", "path": "harness/poolmon", "serves_properties": ["C07","C16"], "kind_free_text": "version-tagged rules, history checker, management model"},
             {"name": "algebra histories", "path": "harness/algebra", "serves_properties": ["C08"], "kind_free_text": "model-based operation histories on a RuleBuilder"},
         ],
         "checks": checks,
